@@ -199,7 +199,7 @@ TREE_WORDS = ["a", "b", "c", "foo", "*", "fo*", "a b", "=b", "T12", "30", "TO", 
               "AND", "é", "", "a\\ b"]
 TREE_PHRASES = ['"a b"', '""', '"x"', '"a\\"b"', '"c d e"']
 TREE_REGEX = ["/a/", "//", "/b c/"]
-TREE_FIELDS = ["f", "g", "a.b", "bad name", "é", "", "f1", "a.b.c"]
+TREE_FIELDS = ["f", "g", "a.b", "bad name", "é", "", "f1", "a.b.c", "T12", "xT07"]
 
 OPS = ["AndOperation", "OrOperation", "UnknownOperation", "BoolOperation"]
 UNARIES = ["Plus", "Not", "Prohibit"]
